@@ -38,10 +38,10 @@ var Check = &run.Check{
 	ID:    "C07",
 	Level: "exploration",
 	Rule: "3 of 4 cases: a generated Java project (2-7 files; the same variable names with different types in different files and methods, inherited receivers, suffix-colliding imports, same simple class name in two packages, " +
-		"Spring controllers with and without a class-level mapping next to non-controllers, interfaces/abstract members carrying @Override) analysed several times IN ONE PROCESS: " +
+		"Spring controllers with and without a class-level mapping (some extending one another) next to non-controllers, interfaces/abstract members carrying @Override) analysed several times IN ONE PROCESS: " +
 		"R1 permuted file lists (identifier pass, full pass) / the same sources under directory names that sort differently (bad-smell pass, API pass; results compared through the path bijection), " +
 		"R2 sub- and supersets with the identifier set held fixed, R3 the same call repeated 2-3 times; per-file slices must be identical (functions inside a type compared as a set). " +
-		"1 of 4 cases: R4 a call graph / reverse call graph generated for model A, again for A, and again after a different model B: the three edge sets for A must be equal. " +
+		"1 of 4 cases: R4 a call graph / reverse call graph generated for model A (classes extending one another in chains of up to 5, inherited methods called through subclass receivers), again for A, and again after a different model B: the three edge sets for A must be equal. " +
 		"non-trivial = project cases with >= 3 files of which >= 1 reuses a variable name with another type or is a controller / graph cases whose first graph exhausts the expansion budget; distinct = hash of (file kinds, permutation, subset mask) or of the two graph shapes",
 	Assumptions: []string{
 		"relations are equalities between executions of the real code; no reference result is needed, so nothing beyond the statement is demanded",
@@ -68,8 +68,7 @@ type srcFile struct {
 	Kind string
 }
 
-func controller(r *run.Rand, i int) srcFile {
-	name := fmt.Sprintf("Ctl%d%s", i, r.Pick([]string{"Controller", "Resource", "Api"}))
+func controller(r *run.Rand, i int, name string, earlier []string) srcFile {
 	var sb strings.Builder
 	sb.WriteString("package com.acme.web;\n\nimport org.springframework.web.bind.annotation.*;\n\n")
 	isCtl := r.Chance(4, 5)
@@ -83,7 +82,12 @@ func controller(r *run.Rand, i int) srcFile {
 		// some controllers share one base path
 		sb.WriteString(fmt.Sprintf("@RequestMapping(\"/base%d\")\n", i%2))
 	}
-	sb.WriteString("public class " + name + " {\n")
+	sb.WriteString("public class " + name)
+	if len(earlier) > 0 && r.Chance(1, 2) {
+		// controller inheritance: the parent may carry the class-level mapping, the child none (or the other way round)
+		sb.WriteString(" extends " + r.Pick(earlier))
+	}
+	sb.WriteString(" {\n")
 	if r.Bool() {
 		sb.WriteString("    public void helper" + fmt.Sprint(i) + "() { }\n")
 	}
@@ -211,8 +215,18 @@ func runCase(c *run.Ctx, o *run.Outcome) {
 		files = append(files, srcFile{ID: id, Name: f.Type.Name + ".java", Text: f.Text, Kind: f.Type.Kind})
 	}
 	nCtl := r.Range(0, 3)
+	// controller names first: a controller may extend one that sorts (and is walked) before it, or, in other cases, after it
+	var ctlNames []string
 	for i := 0; i < nCtl; i++ {
-		files = append(files, controller(r, i))
+		ctlNames = append(ctlNames, fmt.Sprintf("Ctl%d%s", i, r.Pick([]string{"Controller", "Resource", "Api"})))
+	}
+	extendLater := r.Bool()
+	for i := 0; i < nCtl; i++ {
+		parents := ctlNames[:i]
+		if extendLater {
+			parents = ctlNames[i+1:]
+		}
+		files = append(files, controller(r, i, ctlNames[i], parents))
 	}
 	for _, f := range files {
 		kinds[f.ID] = f.Kind
@@ -391,8 +405,19 @@ func runCase(c *run.Ctx, o *run.Outcome) {
 		}
 		return out
 	}
-	var bsBase slices
+	var bsBase, bsPre slices
+	switch pre := (c.Index / 4) % 3; pre {
+	case 1:
+		guard("bad-smell pass, subset first", func() { bsPre = bsRun(dirC, idC) })
+	case 2:
+		guard("bad-smell pass, other directory order first", func() { bsPre = bsRun(dirB, idB) })
+	}
 	if guard("bad-smell pass", func() { bsBase = bsRun(dirA, idA) }) {
+		if bsPre != nil {
+			diff(o, "bad-smell-pass", "dependence-on-run-before-base", bsBase, bsPre, kinds)
+			o.Count("relations_checked", 1)
+			o.Count("relations_checked_with_variant_run_first", 1)
+		}
 		if guard("bad-smell pass, other directory order", func() { s2 = bsRun(dirB, idB) }) {
 			diff(o, "bad-smell-pass", "order-dependence", bsBase, s2, kinds)
 			o.Count("relations_checked", 1)
@@ -427,7 +452,29 @@ func runCase(c *run.Ctx, o *run.Outcome) {
 		return out
 	}
 	var apiBase slices
+	// which execution comes first matters for state that is filled once and kept: in 2 of 3 cases the subset or the
+	// other directory order is analysed BEFORE the base run
+	var apiPre slices
+	pre := (c.Index / 4) % 3
+	switch pre {
+	case 1:
+		guard("API pass, subset first", func() {
+			apiPre = apiRun(dirC)
+			for i, f := range files {
+				if !mask[i] {
+					delete(apiPre, f.ID)
+				}
+			}
+		})
+	case 2:
+		guard("API pass, other directory order first", func() { apiPre = apiRun(dirB) })
+	}
 	if guard("API pass", func() { apiBase = apiRun(dirA) }) {
+		if apiPre != nil {
+			diff(o, "api-pass", []string{"", "subset-dependence", "order-dependence"}[pre]+"(run-before-base)", apiBase, apiPre, kinds)
+			o.Count("relations_checked", 1)
+			o.Count("relations_checked_with_variant_run_first", 1)
+		}
 		if guard("API pass, other directory order", func() { s2 = apiRun(dirB) }) {
 			diff(o, "api-pass", "order-dependence", apiBase, s2, kinds)
 			o.Count("relations_checked", 1)
@@ -473,8 +520,8 @@ func edgeKey(dot string) (string, error) {
 
 func graphCase(c *run.Ctx, o *run.Outcome) {
 	r := c.Rng
-	mA := modelgen.Generate(r.Fork(), modelgen.Opts{MaxClasses: 5, MaxMethods: 14, MaxOut: 4})
-	mB := modelgen.Generate(r.Fork(), modelgen.Opts{MaxClasses: 5, MaxMethods: 25, MaxOut: 5})
+	mA := modelgen.Generate(r.Fork(), modelgen.Opts{MaxClasses: 5, MaxMethods: 14, MaxOut: 4, Inheritance: true, Kinds: true, DefaultPkg: true})
+	mB := modelgen.Generate(r.Fork(), modelgen.Opts{MaxClasses: 5, MaxMethods: 25, MaxOut: 5, Inheritance: true, Kinds: true})
 	rootA := modelgen.PickRoot(r, mA)
 	rootB := modelgen.PickRoot(r, mB)
 	lookup := r.Chance(1, 3)
